@@ -259,7 +259,11 @@ class FrontGen:
             fn, pn = f"lib{k}.bitproto", r.choice(["shared", "common", "base"]) + str(k)
             f, ent = self.file(fn, pn, [])
             files.append(f)
-            imps.append((fn, pn, ent, r.choice([None, None, f"im{k}"])))
+            # `as` names sometimes come from the definition-name pool, so that a nested message can shadow an import
+            as_name = r.choice([None, None, f"im{k}", r.choice(DEF_NAMES)])
+            if as_name in [a for (_, _, _, a) in imps]:
+                as_name = f"im{k}"
+            imps.append((fn, pn, ent, as_name))
         main, _ = self.file("main.bitproto", "mainp", imps)
         files.append(main)
         return files, "main.bitproto"
@@ -634,3 +638,45 @@ def mutate(rng: random.Random, files: List[dict], main: str) -> Optional[Tuple[L
     if kind == "array-of-array" and fields:
         return None
     return None
+
+
+# ------------------------------------------------------------------ hand-picked shadowing programs (run first)
+def corpus_programs() -> List[Tuple[List[dict], str]]:
+    def enum(name, nbits):
+        return {"k": "enum", "name": name, "nbits": nbits, "members": [{"name": f"{name.upper()}_Z{nbits}", "value": 0}]}
+
+    def msg(name, items, ext=False):
+        return {"k": "msg", "name": name, "ext": ext, "items": items}
+
+    def fld(name, num, ty):
+        return {"k": "field", "name": name, "num": num, "ty": ty}
+
+    out = []
+    # 1. a nested message named like an import; both declare Header -> the nested one wins (innermost scope)
+    lib = {"name": "lib0.bitproto", "proto": "lib", "items": [msg("Header", [fld("w", 1, {"uint": 16})]), enum("Kind", 9)]}
+    main = {"name": "main.bitproto", "proto": "mainp", "items": [
+        {"k": "import", "file": "lib0.bitproto"},
+        msg("Frame", [msg("lib", [msg("Header", [fld("n", 1, {"uint": 4})])]), fld("h", 1, {"ref": ["lib", "Header"]}),
+                      fld("k", 2, {"ref": ["lib", "Kind"]})]),      # lib.Kind: not in Frame.lib -> falls outward to the import
+        msg("Plain", [fld("h", 1, {"ref": ["lib", "Header"]})])]}
+    out.append(([lib, main], "main.bitproto"))
+    # 2. same with an `as` name taken from the definition pool
+    lib2 = {"name": "lib0.bitproto", "proto": "shared", "items": [enum("Kind", 11), msg("Inner", [fld("a", 1, {"int": 7})])]}
+    main2 = {"name": "main.bitproto", "proto": "mainp", "items": [
+        {"k": "import", "file": "lib0.bitproto", "as": "Alpha"},
+        enum("Kind", 3),
+        msg("Outer", [fld("before", 1, {"ref": ["Kind"]}), enum("Kind", 5), fld("after", 2, {"ref": ["Kind"]}),
+                      msg("Alpha", [enum("Kind", 6)]), fld("dotted", 3, {"ref": ["Alpha", "Kind"]}),
+                      fld("outward", 4, {"ref": ["Alpha", "Inner"]})]),
+        msg("Later", [fld("x", 1, {"ref": ["Outer", "Kind"]}), fld("y", 2, {"ref": ["Alpha", "Kind"]}), fld("z", 3, {"ref": ["Kind"]})])]}
+    out.append(([lib2, main2], "main.bitproto"))
+    # 3. three levels: the innermost declaration wins only after it closes; siblings see the parent's
+    main3 = {"name": "main.bitproto", "proto": "mainp", "items": [
+        enum("Unit", 2),
+        msg("A", [enum("Unit", 4),
+                  msg("B", [fld("u1", 1, {"ref": ["Unit"]}), enum("Unit", 8), fld("u2", 2, {"ref": ["Unit"]}),
+                            msg("C", [fld("u3", 1, {"ref": ["Unit"]}), fld("arr", 2, {"array": {"ref": ["Unit"]}, "cap": {"lit": 3}, "ext": False})])]),
+                  fld("u4", 1, {"ref": ["Unit"]}), fld("u5", 2, {"ref": ["B", "Unit"]}), fld("u6", 3, {"ref": ["B", "C"]})]),
+        msg("D", [fld("u7", 1, {"ref": ["Unit"]}), fld("u8", 2, {"ref": ["A", "Unit"]}), fld("u9", 3, {"ref": ["A", "B", "Unit"]})])]}
+    out.append(([main3], "main.bitproto"))
+    return out
